@@ -58,6 +58,8 @@ AncChain(n) == IF parent[n] = 0 THEN <<>> ELSE <<parent[n]>> \o AncChain(parent[
 AncSelf(n) == <<n>> \o AncChain(n)
 FirstOr0(s) == IF s = <<>> THEN 0 ELSE s[1]
 Leaves(n) == Filter(Deep(n), LAMBDA x : kids[x] = <<>>)
+\* getChildren(includeMaterials=True): every component is followed by its material (written -id here)
+WithMats(s) == Flat([i \in 1..Len(s) |-> IF Kind(s[i]) = "cmp" THEN <<s[i], 0 - s[i]>> ELSE <<s[i]>>])
 RECURSIVE CompsOf(_)
 \* iterComponents: depth-first, a component yields itself
 CompsOf(n) == IF Kind(n) = "cmp" THEN <<n>> ELSE Flat([i \in 1..Len(kids[n]) |-> CompsOf(kids[n][i])])
@@ -191,6 +193,24 @@ Copy(n, how) ==
           /\ orig' = [y \in Node |-> IF y \in new THEN orig[from(y)] ELSE orig[y]]
           /\ Ok([n |-> how, x |-> n, ids |-> [i \in 1..Len(cm) |-> cm[i][2]]])
 
+\* Block.replaceBlockWithBlock(t): the receiver's children are replaced by the children of a private deep copy of t
+Replace(b, t) ==
+    /\ Typed /\ b \in live /\ t \in live /\ b # t /\ Kind(b) = "blk" /\ Kind(t) = "blk"
+    /\ Len(kids[t]) <= Cardinality(FreeIds)
+    /\ LET free == SetToSeqSorted(FreeIds)
+           k    == Len(kids[t])
+           new  == [i \in 1..k |-> free[i]]
+           old  == Rng(kids[b])
+           src(y) == kids[t][CHOOSE i \in 1..k : new[i] = y]
+       IN /\ live' = live \cup Rng(new)
+          /\ kids' = [kids EXCEPT ![b] = new]
+          /\ parent' = [y \in Node |-> IF y \in Rng(new) THEN b ELSE IF y \in old THEN 0 ELSE parent[y]]
+          /\ att' = [y \in Node |-> IF y \in Rng(new) \cup old THEN FALSE ELSE att[y]]
+          /\ loc' = [y \in Node |-> IF y \in Rng(new) THEN loc[src(y)] ELSE loc[y]]
+          \* the receiver takes over the template's parameters (flags, type name) along with the children
+          /\ orig' = [y \in Node |-> IF y \in Rng(new) THEN orig[src(y)] ELSE IF y = b THEN orig[t] ELSE orig[y]]
+          /\ Ok([n |-> "Replace", b |-> b, t |-> t, ids |-> new])
+
 SmallSeqs(S) == UNION {{s \in [1..k -> S] : \A i, j \in 1..k : i # j => s[i] # s[j]} : k \in 0..MaxSet}
 
 RemoveAbsentWhereItMatters(p, c) == (parent[c] # 0 \/ kids[p] # <<>>) /\ RemoveAbsent(p, c)
@@ -211,6 +231,7 @@ Next ==
     \/ \E p \in Node : SetChildrenAny(p)
     \/ \E c \in Node : \E i \in LocIx : MoveTo(c, i)
     \/ \E n \in Node : Copy(n, "DeepCopy") \/ Copy(n, "Pickle")
+    \/ \E b, t \in Node : Replace(b, t)
 
 Spec == Init /\ [][Next]_<<vars, err, act>>
 
@@ -236,12 +257,17 @@ QueriesAt(n) == [
     type1    |-> Filter(kids[n], LAMBDA x : TypeOf(x) = "t1"),
     anc      |-> AncChain(n),
     ancB     |-> FirstOr0(Filter(AncSelf(n), LAMBDA x : HasFlags(x, {"B"}, FALSE))),
+    ancBx    |-> FirstOr0(Filter(AncSelf(n), LAMBDA x : HasFlags(x, {"B"}, TRUE))),
+    ancAx    |-> FirstOr0(Filter(AncSelf(n), LAMBDA x : HasFlags(x, {"A"}, TRUE))),
     ancOdd   |-> FirstOr0(Filter(AncChain(n), LAMBDA x : orig[x] % 2 = 1)),
     ancOddS  |-> FirstOr0(Filter(AncSelf(n), LAMBDA x : orig[x] % 2 = 1)),
     ancOddDist |-> LET ch == AncSelf(n) idx == {i \in 1..Len(ch) : orig[ch[i]] % 2 = 1}
                    IN IF idx = {} THEN -1 ELSE Min(idx) - 1,
     root     |-> RootOf(n),
     comps    |-> CompsOf(n),
+    deepMat  |-> WithMats(Deep(n)),
+    flagAMat |-> WithMats(Filter(kids[n], LAMBDA x : HasFlags(x, {"A"}, FALSE))),
+    gen2Mat  |-> WithMats(Gen(n, 2)),
     compsA   |-> Filter(CompsOf(n), LAMBDA x : HasFlags(x, {"A"}, FALSE)),
     gridOwner |-> IF att[n] THEN parent[n] ELSE 0,
     contains |-> SetToSeqSorted({c \in live : c \in Rng(kids[n])})
